@@ -36,6 +36,9 @@ def run(ctx, col, tier):
                         "clauses above for well-formed trees, not proved here)"]
 
     col.guard(anchored, ctx, col)
+    from ..rules import callbacks
+    callbacks.check(ctx, col, "R-BRANCH", ctx.repo.get_def("swcgeom.core.tree.Tree.get_branches"))
+    callbacks.check(ctx, col, "R-PATH", ctx.repo.get_def("swcgeom.core.tree.Tree.get_paths"))
     col.guard(get_branches, ctx, col)
     col.guard(thresholds, ctx, col)
     col.guard(get_paths, ctx, col)
